@@ -560,6 +560,12 @@ public:
       pre = strengthen(head, pre);
     }
 
+    // If the analysis starts at the head of this cycle then the
+    // initial value also flows into the head, in addition to the
+    // values propagated by its predecessors.
+    const bool head_is_entry = entry_in_this_cycle && (head == m_entry);
+    const AbstractValue entry_pre = head_is_entry ? pre : make_bottom();
+
     for (unsigned int iteration = 1;; ++iteration) {
       // keep track of how many times the cycle is visited by the fixpoint
       cycle.increment_fixpo_visits();
@@ -575,6 +581,9 @@ public:
       AbstractValue new_pre = std::move(make_bottom());
       for (basic_block_label_t prev : prev_nodes) {
         new_pre |= m_iterator->get_post(prev);
+      }
+      if (head_is_entry) {
+        new_pre |= entry_pre;
       }
       crab::CrabStats::stop("Fixpo.join_predecessors");
       crab::CrabStats::resume("Fixpo.check_fixpoint");
@@ -609,6 +618,9 @@ public:
       AbstractValue new_pre = std::move(make_bottom());
       for (basic_block_label_t prev : prev_nodes) {
         new_pre |= m_iterator->get_post(prev);
+      }
+      if (head_is_entry) {
+        new_pre |= entry_pre;
       }
       crab::CrabStats::stop("Fixpo.join_predecessors");
       crab::CrabStats::resume("Fixpo.check_fixpoint");
